@@ -37,7 +37,7 @@ def materialise(name, k, spec, invs, base, constraint=True):
     cfgp = os.path.join(d, "run.cfg")
     with open(cfgp, "w") as f:
         f.write(f"CONSTANTS\n  Prefix = {ts(k['prefix'])}\n  Src = {ts(k['src'])}\n  SrcRank <- cRank\n  Obs = \"{k['obs']}\"\n  Suppress = {ts([x for x in suppress if x in k['src']])}\n"
-                f"  Cls = {ts(k['cls'])}\n  Reject = {ts(k.get('reject', []))}\n  SendMax = {k['sendmax']}\n  MaxChan = {k['maxchan']}\n"
+                f"  Cls = {ts(k['cls'])}\n  Reject = {ts(k.get('reject', []))}\n  RejectSrc = {ts(k.get('rejsrc', []))}\n  SendMax = {k['sendmax']}\n  MaxChan = {k['maxchan']}\n"
                 f"  OpKinds = {ts(k.get('ops', []))}\n"
                 f"  LidMode = \"{k.get('lid', 'abstract')}\"\n  Dev = {ts(k.get('dev', []))}\n"
                 f"SPECIFICATION {spec}\n" + ("CONSTRAINT ChanBound\n" if constraint else "") +
@@ -192,7 +192,9 @@ def main(c):
                ("d9", {"prefix": ["p1"], "src": ["s1", "s2"], "obs": "o", "cls": ["x"], "ops": ["nhflap"], "scen": "ibgp", "sendmax": 1, "maxchan": 2}),
                ("d10", {"prefix": ["p1"], "src": ["s1", "s2"], "obs": "o", "cls": ["x"], "ops": ["nhflap"], "scen": "ibgp", "sendmax": 2, "maxchan": 2}),
                # the import policy changes and a soft reset IN re-evaluates a source's paths
-               ("d11", {"prefix": ["p1"], "src": ["s1", "s2"], "obs": "o", "cls": ["x", "y"], "ops": ["softin"], "sendmax": 1, "maxchan": 2})]
+               ("d11", {"prefix": ["p1"], "src": ["s1", "s2"], "obs": "o", "cls": ["x", "y"], "ops": ["softin"], "sendmax": 1, "maxchan": 2}),
+               # an export policy that rejects by SOURCE (in the daemon: an RPKI condition, the source's routes validate Invalid)
+               ("d14", {"prefix": ["p1"], "src": ["s1", "s2", "o"], "obs": "o", "cls": ["x"], "rejsrc": ["s1"], "sendmax": 2, "maxchan": 2})]
     if thorough:
         designs += [("d2", {"prefix": ["p1"], "src": ["s1", "s2", "o"], "obs": "o", "cls": ["x", "y"], "sendmax": 2, "maxchan": 2}),
                     ("d7", {"prefix": ["p1", "p2"], "src": ["s1", "o"], "obs": "o", "cls": ["x"], "ops": ["filter"], "sendmax": 1, "maxchan": 2}),
@@ -235,7 +237,11 @@ def main(c):
                  ("w8", {"prefix": ["p1", "p2"], "src": ["s1", "s2", "o"], "obs": "o", "cls": ["x", "y"], "ops": ["nhflap", "filter"], "scen": "rs", "sendmax": 2, "maxchan": 3}),
                  # import-policy changes followed (or not) by soft resets IN
                  ("w9", {"prefix": ["p1", "p2"], "src": ["s1", "s2", "o"], "obs": "o", "cls": ["x", "y"], "ops": ["softin", "filter"], "sendmax": 1, "maxchan": 3}),
-                 ("w10", {"prefix": ["p1", "p2"], "src": ["s1", "s2", "o"], "obs": "o", "cls": ["x", "y"], "ops": ["softin", "nhflap"], "scen": "ibgp", "sendmax": 2, "maxchan": 3})]
+                 ("w10", {"prefix": ["p1", "p2"], "src": ["s1", "s2", "o"], "obs": "o", "cls": ["x", "y"], "ops": ["softin", "nhflap"], "scen": "ibgp", "sendmax": 2, "maxchan": 3}),
+                 # the neighbour's export policy has an RPKI condition (rejects what validates Invalid: one source's routes) and
+                 # was accumulated over two assignment requests; alone and together with the class rejection
+                 ("w11", {"prefix": ["p1", "p2"], "src": ["s1", "s2", "o"], "obs": "o", "cls": ["x", "y"], "rejsrc": ["s1"], "sendmax": 1, "maxchan": 3}),
+                 ("w12", {"prefix": ["p1", "p2"], "src": ["s1", "s2", "o"], "obs": "o", "cls": ["x", "y"], "reject": ["y"], "rejsrc": ["s2"], "ops": ["filter"], "sendmax": 2, "maxchan": 3})]
     nwalks, depth = (1500, 30) if thorough else (500, 25)
     allw = []
     hseqs = []
@@ -261,7 +267,7 @@ def main(c):
             sid = f"{name}/{si}"
             nd = w[-1]["chan"]
             hseqs.append((sid, k["sendmax"], [line(stp["op"]) for stp in w] + ["deliver"] * nd + ["flush", "fresh"],
-                          (k.get("reject") or [None])[0], k.get("scen", "ebgp")))
+                          ((k.get("reject") or ["-"])[0] + ("@" + k["rejsrc"][0] if k.get("rejsrc") else "")), k.get("scen", "ebgp")))
             allw.append((sid, k, w, nd))
         c.cov["parts"]["walks-" + name] = {"walks": len(walks), "constants": k}
     got = run_harness("walks", hseqs)
